@@ -185,14 +185,14 @@ theorem kw_value (p : Option Bool) :
       .ok (PyVal.bool (p.getD true)) := by
   cases p <;> rfl
 
-theorem filter_aux (sp : Spec) (ov pre' : Option Bool) (body : PyVal → FState → M (ForInStep FState))
-    (hstep : StepSpec sp ov pre' body) (items : List Ver) (hw : ∀ v ∈ items, WF v) :
-    (do let __s ← forIn (items.map ofV) (PyVal.unbound, ([] : List PyVal), PyVal.bool false, PyVal.list []) body
-        if (!truthy __s.snd.snd.fst && truthy __s.snd.snd.snd) = true then do
-            let __do_lift ← iterate __s.snd.snd.snd
-            let __s ← forIn __do_lift __s.snd.fst fun version __s => pure (ForInStep.yield (__s ++ [version]))
-            pure (PyVal.iter __s)
-          else pure (PyVal.iter __s.snd.fst)) =
+/-- the loop of `filter` followed by whatever the source does with its final state (`K`): nothing here depends on how the
+body or the tail are spelled, only on what they compute (`hstep`, `hK`) -/
+theorem filter_aux (sp : Spec) (ov pre' : Option Bool) (body : PyVal → FState → M (ForInStep FState)) (K : FState → M PyVal)
+    (hstep : StepSpec sp ov pre' body)
+    (hK : ∀ (pv : PyVal) (ys fs : List Ver), K (pv, ys.map ofV, PyVal.bool (!ys.isEmpty), PyVal.list (fs.map ofV)) =
+      .ok (PyVal.iter ((if (ys.isEmpty && !fs.isEmpty) = true then fs else ys).map ofV)))
+    (items : List Ver) (hw : ∀ v ∈ items, WF v) :
+    (forIn (items.map ofV) (PyVal.unbound, ([] : List PyVal), PyVal.bool false, PyVal.list []) body >>= K) =
       Except.map (fun l => PyVal.iter (List.map ofV l)) (do
         let __x ← sp.filterLoop ov pre' (items.map fun v => (v, v)) [] []
         if (__x.fst.isEmpty && !__x.snd.isEmpty) = true then pure __x.snd else pure __x.fst) := by
@@ -208,67 +208,39 @@ theorem filter_aux (sp : Spec) (ov pre' : Option Bool) (body : PyVal → FState 
     obtain ⟨pv', hl⟩ := hl
     simp only [List.map_nil, List.isEmpty_nil, Bool.not_true] at hl
     rw [hl]
-    simp only [ok_bind, truthy_bool, Bool.not_not, truthy_list, List.isEmpty_map, Except.map]
-    cases hc : (y'.isEmpty && !f'.isEmpty)
-    · simp [pure, Except.pure]
-    · simp only [if_true, iterate_list, ok_bind]
-      rw [forIn_append_ok _ _ _ (fun x => [x]) (by intro x _ s; rfl)]
-      have hy : y' = [] := by
-        cases y' with
-        | nil => rfl
-        | cons a as => simp at hc
-      simp [hy, pure, Except.pure, List.flatMap_singleton']
+    simp only [ok_bind, hK, Except.map]
+    cases hc : (y'.isEmpty && !f'.isEmpty) <;> simp [pure, Except.pure]
 
-/-- `Specifier.filter(iterable, prereleases)` for an iterable of `Version` objects: the versions yielded, in order -/
+/-- appending the items of a list one by one (`for v in xs: yield v`) -/
+theorem forIn_yield_each {α} (f : α → PyVal) (xs : List α) (acc : List PyVal) :
+    forIn xs acc (fun a s => (Except.ok (ForInStep.yield (s ++ [f a])) : M (ForInStep (List PyVal)))) = .ok (acc ++ xs.map f) := by
+  induction xs generalizing acc with
+  | nil => simp
+  | cons x xs ih => simp only [List.forIn_cons, ok_bind, ih, List.map_cons, List.append_assoc, List.cons_append, List.nil_append]
+
+/-- `Specifier.filter(iterable, prereleases)` for an iterable of `Version` objects: the versions yielded, in order.
+The proof fixes the (finitely many) values of the two overrides, evaluates the translated block symbolically and hands the
+loop to `filter_aux`; it names neither the loop body nor the code after the loop. -/
 theorem Specifier.filter_eq_model (sp : Spec) (ov pre : Option Bool) (items : List Ver) (hw : ∀ v ∈ items, WF v) :
     Gen.PySrc.Specifier.filter (ofSpec sp ov) (.list (items.map ofV)) (ofOptBool pre) =
       (sp.filter ov pre (items.map fun v => (v, v))).map (fun l => PyVal.iter (l.map ofV)) := by
   unfold Gen.PySrc.Specifier.filter Spec.filter
-  simp only []
-  rw [pre_default_jp sp ov pre]
-  simp only [kw_value, ok_bind, iterate_list]
-  have hstep : ∀ pre' : Option Bool, StepSpec sp ov pre' (fun version __s => do
-        let parsed_version ← Gen.PySrc._coerce_version version
-        let __do_lift ← Gen.PySrc.Specifier.contains (ofSpec sp ov) parsed_version (PyVal.bool (pre'.getD true))
-        if truthy __do_lift = true then do
-            let __do_lift ← (do
-                let __b2 ← Gen.PySrc.Version.is_prerelease parsed_version
-                if truthy __b2 = true then do
-                    let __do_lift ← (if truthy (ofOptBool pre') = true then pure (ofOptBool pre')
-                        else Gen.PySrc.Specifier.prereleases (ofSpec sp ov))
-                    pure (PyVal.bool !truthy __do_lift)
-                  else pure __b2)
-            if truthy __do_lift = true then do
-                let found_prereleases ← list_append __s.snd.snd.snd version
-                pure (ForInStep.yield (parsed_version, __s.snd.fst, __s.snd.snd.fst, found_prereleases))
-              else
-                pure (ForInStep.yield (parsed_version, __s.snd.fst ++ [version], PyVal.bool true, __s.snd.snd.snd))
-          else pure (ForInStep.yield (parsed_version, __s.snd.fst, __s.snd.snd.fst, __s.snd.snd.snd))) := by
-    intro pre' v hv pv0 ys fs
-    have hc := Specifier.contains_eq_model sp ov v hv (some (pre'.getD true))
-    simp only [ofOptBool] at hc
-    simp only [ofV, _coerce_version_eq_model, ok_bind, hc, Version.is_prerelease_eq_model, truthy_bool,
-      Specifier.prereleases_eq_model]
-    cases hcon : sp.contains ov v (some (pre'.getD true)) with
-    | error e => rfl
-    | ok c =>
-      cases c with
-      | false => simp [Except.map]
-      | true =>
-        simp only [Except.map, ok_bind, truthy_bool, if_true]
-        cases hp : v.isPre with
-        | false => simp
-        | true =>
-          rcases pre' with _ | _ | _
-          · cases ho : sp.prereleases ov with
-            | error e => simp [ofOptBool, Except.map, bind, Except.bind]
-            | ok own => cases own <;> simp [ofOptBool, Except.map, bind, Except.bind]
-          · cases ho : sp.prereleases ov with
-            | error e => simp [ofOptBool, Except.map, bind, Except.bind]
-            | ok own => cases own <;> simp [ofOptBool, Except.map, bind, Except.bind]
-          · simp [ofOptBool]
-  cases pre with
-  | none => exact filter_aux sp ov ov _ (hstep ov) items hw
-  | some b => exact filter_aux sp ov (some b) _ (hstep (some b)) items hw
+  rcases pre with _ | _ | _ <;> rcases ov with _ | _ | _ <;>
+    simp only [ofOptBool, isNone_none, isNone_bool, if_true, if_false, Bool.not_true, Bool.not_false, Bool.false_eq_true,
+      getattr_spec_pre, ok_bind, pure_ok, iterate_list, truthy_bool, truthy_none] <;>
+    (refine filter_aux sp _ _ _ _ ?_ ?_ items hw
+     · -- one iteration
+       intro v hv pv0 ys fs
+       have hc : ∀ (ov : Option Bool) (b : Bool), Gen.PySrc.Specifier.contains (ofSpec sp ov) (ofVer "Version" v) (.bool b) =
+           (sp.contains ov v (some b)).map PyVal.bool :=
+         fun ov b => by simpa [ofOptBool] using Specifier.contains_eq_model sp ov v hv (some b)
+       simp only [ofV, _coerce_version_eq_model, ok_bind, hc, Version.is_prerelease_eq_model, truthy_bool, truthy_none,
+         Specifier.prereleases_eq_model, Option.getD, pure_ok, if_true, if_false, Bool.false_eq_true]
+       rcases hcon : sp.contains _ v _ with _ | _ | _ <;> cases hp : v.isPre <;> rcases ho : sp.prereleases _ with _ | _ | _ <;>
+         src_simp [hcon, hp, ho, bind, Except.bind, pure, Except.pure]
+     · -- after the loop
+       intro pv ys fs
+       rcases ys with _ | ⟨y, ys⟩ <;> rcases fs with _ | ⟨f, fs⟩ <;>
+         src_simp [forIn_yield_each, pure, Except.pure])
 
 end Src
